@@ -52,7 +52,7 @@ ASSUMPTIONS = ["mdoc grammar: unique keys, the same key set in every section (ra
                "re-reading a written mdoc with zero kept images is not judged (the grammar has 1..80 images)"]
 
 CLASSES = ["mdoc_plain", "mdoc_crlf", "mdoc_values", "mdoc_n1", "mdoc_large", "mdoc_sort", "mdoc_remove", "mdoc_history",
-           "mdoc_odd_index", "mdoc_module_funcs", "mdoc_reuse_indices", "mdoc_frameset", "mdoc_expfloat",
+           "mdoc_odd_index", "mdoc_module_funcs", "mdoc_reuse_indices", "mdoc_frameset", "mdoc_expfloat", "mdoc_unicode",
            "tlt_files", "dose_files", "dose_mdoc", "gctf", "ctffind4",
            "wedge_single", "wedge_batch_files", "wedge_batch_tables", "wedge_batch_mdoc", "wedge_em", "wedge_int_zshift"]
 
@@ -63,12 +63,12 @@ def plan(tier):
     # ctffind4_read and wedge_sg are 1.6 x what the driver's own DIRECT calls reach (measured with VERIF_BYPASS_INTERNAL=1), so the
     # floors hold whatever cryoCAT's internal call structure is.
     if tier == "quick":
-        return dict(n_cases=24 * 17, shards=2, classes=CLASSES, timeout_s=600,
+        return dict(n_cases=25 * 17, shards=2, classes=CLASSES, timeout_s=600, env={"PYTHONUTF8": "1"},
                     min_evals={"mdoc_write": 180, "mdoc_read": 1040, "mdoc_roundtrip": 160, "mdoc_history": 130, "sort_by_tilt": 80,
                                "remove_images": 100, "kept_images": 530, "one_value_per_line_read": 900, "tlt_load": 400,
                                "total_dose_load": 200, "gctf_read": 130, "ctffind4_read": 130, "defocus_load": 50, "wedge_sg": 440, "wedge_sg_batch": 60,
                                "wedge_em_batch": 35, "wedge_sg_to_em": 35, "index_array_unchanged": 25, "loader_truth": 350, "defocus_truth": 90, "wedge_truth": 120})
-    return dict(n_cases=24 * 250, shards=12, classes=CLASSES, timeout_s=3000,
+    return dict(n_cases=25 * 240, shards=12, classes=CLASSES, timeout_s=3000, env={"PYTHONUTF8": "1"},
                 min_evals={"mdoc_write": 2700, "mdoc_read": 14200, "mdoc_roundtrip": 2400, "mdoc_history": 2000, "sort_by_tilt": 1200,
                            "remove_images": 1500, "kept_images": 6800, "one_value_per_line_read": 11400, "tlt_load": 6000,
                            "total_dose_load": 3000, "gctf_read": 2500, "ctffind4_read": 2280, "defocus_load": 750, "wedge_sg": 6400, "wedge_sg_batch": 900,
@@ -658,7 +658,7 @@ def setup(ctx):
     f_sgb = monitors.wrap(ctx, wedgeutils, "create_wedge_list_sg_batch", "wedge_sg_batch", _sgb_post, _sgb_app, _pop_exp)
     f_em = monitors.wrap(ctx, wedgeutils, "create_wedge_list_em_batch", "wedge_em_batch", _em_post, _em_app, _pop_exp)
     f_s2e = monitors.wrap(ctx, wedgeutils, "wedge_list_sg_to_em", "wedge_sg_to_em", _s2e_post, _s2e_app, _pop_exp)
-    ctx.declare("index_array_unchanged", "mdoc_roundtrip", "mdoc_history", "loader_truth", "defocus_truth", "wedge_truth", "wedge_em_consistent", "get_tilt_angles")
+    ctx.declare("caller_arrays_unchanged", "index_array_unchanged", "mdoc_roundtrip", "mdoc_history", "loader_truth", "defocus_truth", "wedge_truth", "wedge_em_consistent", "get_tilt_angles")
     monitors.trace(ctx, [
         ("Mdoc._read_mdoc", f_r, {"zvalue": 'section_id = "ZValue"', "frameset": 'section_id = "FrameSet"'}),
         ("Mdoc._parse_header", M._parse_header, {"title": "titles.append(title)", "key_value": "project_info[key.strip()]"}),
@@ -697,8 +697,8 @@ def setup(ctx):
 def _n_images(rng, cls, tier):
     if cls == "mdoc_n1":
         return 1
-    if cls == "mdoc_large":
-        return int(rng.integers(41, 81))
+    if cls == "mdoc_large":        # block-boundary sizes 2**6 - 1, 2**6, 2**6 + 1 and the largest size of the quantifier are planted
+        return int(rng.choice([63, 64, 65, 79, 80])) if rng.random() < 0.6 else int(rng.integers(41, 81))
     hi = 25 if tier == "quick" else 61
     n = int(rng.choice([2, 3, 5, 9, 21, 41])) if rng.random() < 0.4 else int(rng.integers(1, hi))
     return n
@@ -743,7 +743,7 @@ def _gen_subset(rng, k, style=None):
 def gen_mdoc_case(ctx, rng, i, cls):
     n = _n_images(rng, cls, ctx.tier)
     sid = "FrameSet" if cls == "mdoc_frameset" else "ZValue"
-    ocls = {"mdoc_plain": "plain", "mdoc_crlf": "crlf", "mdoc_values": "values", "mdoc_expfloat": "expfloat"}.get(cls, str(rng.choice(["plain", "values", "crlf"])))
+    ocls = {"mdoc_plain": "plain", "mdoc_crlf": "crlf", "mdoc_values": "values", "mdoc_expfloat": "expfloat", "mdoc_unicode": "unicode"}.get(cls, str(rng.choice(["plain", "values", "crlf"])))
     ties = cls == "mdoc_sort" and rng.random() < 0.3
     with_prior = True if cls in ("mdoc_module_funcs",) else None
     st = O.gen_mdoc(rng, n, cls=ocls, section_id=sid, ties=ties, with_prior=with_prior)
@@ -773,7 +773,7 @@ def gen_mdoc_case(ctx, rng, i, cls):
         push(op_remove(model))
         if rng.random() < 0.4:
             push(op_remove(model))
-    elif cls in ("mdoc_history", "mdoc_odd_index", "mdoc_frameset", "mdoc_large"):
+    elif cls in ("mdoc_history", "mdoc_odd_index", "mdoc_frameset", "mdoc_large", "mdoc_unicode"):
         for _ in range(int(rng.integers(1, 5))):
             push(op_sort() if rng.random() < 0.4 else op_remove(model))
     elif cls == "mdoc_module_funcs":
@@ -820,7 +820,7 @@ def _asc_values(rng, n, lo=-70.0, hi=70.0, dec=2, repeats=0.0):
 
 def _n_rows(rng, tier):
     if rng.random() < 0.35:
-        return int(rng.choice([1, 2, 3, 41, 61, 80]))
+        return int(rng.choice([1, 2, 3, 41, 63, 64, 65, 79, 80]))
     return int(rng.integers(1, 30 if tier == "quick" else 81))
 
 
@@ -835,6 +835,11 @@ def gen_loader_case(ctx, rng, i, cls):
                 vals = _asc_values(rng, n, dec=int(rng.choice([1, 2, 2, 3])), repeats=0.45)
             else:
                 vals = np.round(rng.uniform(0, 150, n), 3)
+                if rng.random() < 0.4:     # numbers with unusual text forms / at representability boundaries
+                    pool = np.array([3e-06, 1e-07, 100001.0, 100002.0, 16777217.0, 0.5, 5.0, 1e16, 3.4028234e38, 1.5e-42])
+                    m = rng.random(n) < 0.3
+                    m[int(rng.integers(0, n))] = True
+                    vals = np.where(m, rng.choice(pool, n), vals)
             filesl.append({"n": n, "style": style, "values": [float(x) for x in vals], "sub": int(rng.integers(0, 1 << 30))})
         summ = {"files": [{"n": f["n"], "style": f["style"], "head": f["values"][:3]} for f in filesl]}
         return {"i": i, "cls": cls, "kind": "numbers", "files": filesl, "nt": any(f["n"] >= 2 for f in filesl), "summary": summ}
@@ -852,9 +857,13 @@ def gen_loader_case(ctx, rng, i, cls):
     has_phase = cls == "ctffind4" or bool(rng.random() < 0.5)
     phase = np.round(rng.uniform(0, 3.1, n) * (rng.random() < 0.5), 6)
     if cls == "gctf":
-        style = ["plain", "canonical", "ints", "crlf", "comments"][(i // len(CLASSES)) % 5]
+        style = ["plain", "all_ints", "canonical", "ints", "all_ints", "crlf", "comments"][(i // len(CLASSES)) % 7]
     else:
-        style = ["plain", "nohdr", "crlf", "lead_ws", "tabs", "cols", "short", "no_final_nl", "varhdr"][(i // len(CLASSES)) % 9]
+        style = ["plain", "whole", "nohdr", "crlf", "lead_ws", "tabs", "whole", "cols", "short", "no_final_nl", "varhdr"][(i // len(CLASSES)) % 11]
+    if style in ("all_ints", "whole"):     # every number of the file is a whole number (integer-typed columns after parsing)
+        U, V, ang, phase = np.round(U), np.round(V), np.round(ang), np.round(phase)
+    elif style == "ints":                  # mixed: whole defocus, fractional angles
+        U, V = np.round(U), np.round(V)
     summ = {"rows": n, "style": style, "phase": has_phase, "U0": float(U[0]), "V0": float(V[0])}
     return {"i": i, "cls": cls, "kind": "defocus", "U": U, "V": V, "ang": ang, "phase": phase if has_phase else None, "style": style,
             "nt": n >= 2, "summary": summ}
@@ -874,6 +883,9 @@ def gen_wedge_case(ctx, rng, i, cls):
     ids = rng.choice(np.arange(1, 10 ** pad), T, replace=False)
     if rng.random() < 0.3:
         ids[0] = 10 ** pad - 1 - int(rng.integers(0, 3)) if (10 ** pad - 1) not in ids[1:] else ids[0]
+    if rng.random() < 0.2:                 # adjacent tomogram numbers just above 1e5 (np.isclose with default rtol would merge them)
+        pad = int(rng.choice([6, 7]))
+        ids = (100000 + int(rng.integers(0, 3)) + np.arange(T))[rng.permutation(T)]
     ids = [int(x) for x in dict.fromkeys(int(x) for x in ids)]
     T = len(ids)
     tlt_kind = "mdoc" if cls == "wedge_batch_mdoc" else ("mdoc" if cls == "wedge_single" and rng.random() < 0.2 else "tlt")
@@ -919,13 +931,33 @@ def gen_wedge_case(ctx, rng, i, cls):
                       "ang": [float(x) for x in np.round(rng.uniform(-90, 90, n), 4)], "phase": [float(x) for x in np.round(rng.uniform(0, 1, n), 4)],
                       "dose": [float(x) for x in dose], "dims": d0 if shared_dims else [float(x) for x in rng.integers(50, 2000, 3)], "z": z,
                       "sub": int(rng.integers(0, 1 << 30))})
-    defaults = bool(rng.random() < 0.3)
+    defaults = bool(rng.random() < 0.25)
     consts = {"pixel_size": float(np.round(rng.uniform(0.5, 15), 3)), "voltage": 300.0 if defaults else float(rng.choice([200.0, 300.0, 120.0])),
               "amp_contrast": 0.07 if defaults else float(np.round(rng.uniform(0.05, 0.15), 3)), "cs": 2.7 if defaults else float(rng.choice([2.7, 2.0, 0.01, 2.26])),
-              "defaults": defaults}
+              "explicit": [] if defaults else ["voltage", "amp_contrast", "cs"], "zero_form": "float0"}
+    if rng.random() < 0.45:                # explicit zeros (Cs corrector, phase-object convention ...) alone and combined, in several numeric types
+        names = ["voltage", "amp_contrast", "cs"]
+        zero = [names[j] for j in range(3) if rng.random() < 0.5] or [str(rng.choice(["cs", "amp_contrast", "voltage"], p=[0.5, 0.3, 0.2]))]
+        for k in zero:
+            consts[k] = 0.0
+        consts["zero_form"] = str(rng.choice(["int0", "float0", "npfloat0", "negzero", "npint0"]))
+        if rng.random() < 0.5:             # only the zeros are passed, the other constants keep their defaults
+            consts["explicit"] = zero
+            for k, d in (("voltage", 300.0), ("amp_contrast", 0.07), ("cs", 2.7)):
+                if k not in zero:
+                    consts[k] = d
+        else:
+            consts["explicit"] = names
+            if defaults:
+                consts.update({k: d for k, d in (("voltage", 200.0), ("amp_contrast", 0.1), ("cs", 2.26)) if k not in zero})
+    ctf_whole = bool(rng.random() < 0.35)  # defocus files holding whole numbers only
+    if ctf_whole:
+        for t in tomos:
+            for k in ("U", "V", "ang", "phase"):
+                t[k] = [float(round(x)) for x in t[k]]
     case = {"i": i, "cls": cls, "kind": "wedge", "tomos": tomos, "pad": pad, "tlt_kind": tlt_kind, "ctf_kind": ctf_kind, "dose_kind": dose_kind,
             "dim_kind": dim_kind, "z_kind": z_kind, "list_kind": str(rng.choice(["array_int", "array_float", "list", "file"])),
-            "tlt_fmt": str(rng.choice(TLT_FORMATS)), "consts": consts, "write": bool(rng.random() < 0.6), "list_sorted": bool(rng.random() < 0.7),
+            "tlt_fmt": str(rng.choice(TLT_FORMATS)), "consts": consts, "ctf_whole": ctf_whole, "write": bool(rng.random() < 0.6), "list_sorted": bool(rng.random() < 0.7),
             "single_inputs": {"tlt": str(rng.choice(["file", "array", "list"])), "ctf": str(rng.choice(["file", "frame", "frame_odd", "array"])),
                               "dose": str(rng.choice(["file", "array", "list"])), "drop": bool(rng.random() < 0.7)},
             "em_source": str(rng.choice(["batch_star", "own_star", "own_star_shuffled", "frame"]))}
@@ -933,7 +965,7 @@ def gen_wedge_case(ctx, rng, i, cls):
         case["tomos"] = sorted(tomos, key=lambda d: d["id"])
     case["nt"] = sum(len(t["tilts"]) for t in tomos) >= 2 and (T >= 2 or ctf_kind != "none" or dose_kind != "none")
     case["summary"] = {"tomograms": [(t["id"], len(t["tilts"])) for t in case["tomos"]], "pad": pad, "tlt": tlt_kind, "ctf": ctf_kind, "dose": dose_kind,
-                       "dims": dim_kind, "z": z_kind, "list": case["list_kind"], "fmt": case["tlt_fmt"], "consts": consts, "write": case["write"],
+                       "dims": dim_kind, "z": z_kind, "ctf_whole": ctf_whole, "list": case["list_kind"], "fmt": case["tlt_fmt"], "consts": consts, "write": case["write"],
                        "single": case["single_inputs"] if cls == "wedge_single" else None, "em": case["em_source"] if cls == "wedge_em" else None,
                        "t0": tomos[0]["tilts"][:3], "z0": tomos[0]["z"], "d0": tomos[0]["dims"]}
     return case
@@ -949,16 +981,20 @@ def gen_reuse_case(ctx, rng, i, cls):
         sts.append(st)
     nmin = min(len(st["sections"]) for st in sts)
     sub = sorted(set(_gen_subset(rng, nmin, str(rng.choice(["one", "few", "half", "first_last"])))))
+    # 'mutate': the caller overwrites the SAME array in place with other indices between the calls; every call is judged against
+    # the values the array holds at that moment
+    variant = "mutate" if rng.random() < 0.45 else "same"
+    subs = [sub] + [sorted(int(x) for x in rng.choice(nmin, len(sub), replace=False)) if variant == "mutate" else sub for _ in range(k - 1)]
     op = {"op": "remove", "indices": sub, "kept_only": True}
-    for st in sts:
+    for st, sb in zip(sts, subs):
         model = [{"z": int(s["id"]), "tilt": float(dict(s["items"])["TiltAngle"]), "removed": False} for s in st["sections"]]
-        models.append(_model_apply(model, op))
+        models.append(_model_apply(model, dict(op, indices=sb)))
     via = "module" if rng.random() < 0.75 else "method"
     from1 = bool(rng.random() < 0.75) and via == "module"
     dtype = str(rng.choice(["int64", "int32"]))
-    summ = {"mdocs": [len(st["sections"]) for st in sts], "indices": sub, "via": via, "numbered_from_1": from1, "dtype": dtype,
+    summ = {"mdocs": [len(st["sections"]) for st in sts], "indices": subs, "variant": variant, "via": via, "numbered_from_1": from1, "dtype": dtype,
             "first": sts[0]["sections"][0]["items"][:3], "layout": sts[0]["layout"]}
-    return {"i": i, "cls": cls, "kind": "mdoc_reuse", "sts": sts, "models": models, "indices": sub, "via": via, "from1": from1, "dtype": dtype,
+    return {"i": i, "cls": cls, "kind": "mdoc_reuse", "sts": sts, "models": models, "indices": sub, "subs": subs, "variant": variant, "via": via, "from1": from1, "dtype": dtype,
             "op": op, "nt": True, "summary": summ}
 
 
@@ -966,8 +1002,10 @@ def run_reuse(ctx, case):
     md = ctx.md
     base = os.path.join(ctx.scratch, "c%d" % case["i"])
     arr = np.array([x + (1 if case["from1"] else 0) for x in case["indices"]], dtype=case["dtype"])
-    orig = arr.copy()                      # every call is judged against these numbers
     for j, (st, model) in enumerate(zip(case["sts"], case["models"])):
+        if j and case["variant"] == "mutate":
+            arr[:] = [x + (1 if case["from1"] else 0) for x in case["subs"][j]]        # in place: same object, new numbers
+        orig = arr.copy()                  # every call is judged against the numbers the array holds when the call is made
         src = os.path.join(base, "in_%d.mdoc" % j)
         out = os.path.join(base, "out_%d.mdoc" % j)
         _write_text(src, O.render_mdoc(st))
@@ -1009,7 +1047,7 @@ def nontrivial(case):
 # ================================================================================================
 def _write_text(path, text):
     os.makedirs(os.path.dirname(path), exist_ok=True)
-    with open(path, "w", newline="") as f:
+    with open(path, "w", newline="", encoding="utf-8") as f:
         f.write(text)
 
 
@@ -1368,9 +1406,9 @@ def materialise(ctx, case, base):
                 dose = np.array([float("%r" % step) + float("%r" % float(np.round(d - step, 4))) for d in dose])
         U, V = np.array(t["U"]), np.array(t["V"])
         if case["ctf_kind"] == "gctf":
-            _write_text(O.expand_format(fmt["ctf"], tid), O.render_gctf(rt, U, V, t["ang"], t["phase"] if rt.random() < 0.5 else None, str(rt.choice(["plain", "canonical", "crlf", "comments"]))))
+            _write_text(O.expand_format(fmt["ctf"], tid), O.render_gctf(rt, U, V, t["ang"], t["phase"] if rt.random() < 0.5 else None, "all_ints" if case["ctf_whole"] else str(rt.choice(["plain", "canonical", "crlf", "comments"]))))
         elif case["ctf_kind"] == "ctffind4":
-            _write_text(O.expand_format(fmt["ctf"], tid), O.render_ctffind4(rt, U, V, t["ang"], t["phase"], str(rt.choice(["plain", "nohdr", "crlf", "varhdr"]))))
+            _write_text(O.expand_format(fmt["ctf"], tid), O.render_ctffind4(rt, U, V, t["ang"], t["phase"], "whole" if case["ctf_whole"] else str(rt.choice(["plain", "nohdr", "crlf", "varhdr"]))))
         if case["dose_kind"] == "txt":
             text, _ = O.render_numbers(rt, dose, str(rt.choice(["lf", "crlf", "lead_ws"])), fmt="%.4f")
             _write_text(O.expand_format(fmt["dose"], tid), text)
@@ -1380,8 +1418,12 @@ def materialise(ctx, case, base):
     extra = [int(x) for x in r.choice(np.arange(10 ** case["pad"], 10 ** case["pad"] + 50), 2, replace=False)]
     dk, zk = case["dim_kind"], case["z_kind"]
     rows4 = np.array([[t["id"]] + t["dims"] for t in tomos] + [[e] + [float(v) for v in r.integers(50, 900, 3)] for e in extra], dtype=float)
+    if r.random() < 0.3:                   # an exact duplicate of a table row
+        rows4 = np.vstack([rows4, rows4[int(r.integers(0, len(rows4)))]])
     rows4 = rows4[r.permutation(len(rows4))]
     rows2 = np.array([[t["id"], t["z"]] for t in tomos] + [[e, float(np.round(r.uniform(-50, 50), 1))] for e in extra], dtype=float)
+    if r.random() < 0.3:
+        rows2 = np.vstack([rows2, rows2[int(r.integers(0, len(rows2)))]])
     rows2 = rows2[r.permutation(len(rows2))]
     args = {"tlt_file_format": fmt["tlt"], "ctf_file_format": fmt["ctf"], "dose_file_format": fmt["dose"], "tomo_dim": None, "tomo_dim_file_format": None,
             "z_shift": 0.0, "z_shift_file_format": None}
@@ -1512,7 +1554,8 @@ def run_wedge(ctx, case):
     args, truth = materialise(ctx, case, base)
     c = case["consts"]
     ids = [t["id"] for t in case["tomos"]]
-    const_kw = {} if c["defaults"] else {"voltage": c["voltage"], "amp_contrast": c["amp_contrast"], "cs": c["cs"]}
+    zero = {"int0": 0, "float0": 0.0, "npfloat0": np.float64(0), "negzero": -0.0, "npint0": np.int64(0)}[c["zero_form"]]
+    const_kw = {k: (zero if c[k] == 0 else c[k]) for k in c["explicit"]}
     cls = case["cls"]
     r = ctx.rng(case["i"], 2)
     direct_wedge_inputs(ctx, case, args, truth, const_kw)
@@ -1547,6 +1590,36 @@ def run_wedge(ctx, case):
         if ok:
             w = O.compare_frame(df, truth_columns(case, truth, [tid]), dropped_absent=si["drop"])
             ctx.check("wedge_truth", w is None, w)
+        # three-step history: the caller modifies its own arrays / lists IN PLACE between the calls; every call is judged against
+        # the values they hold at that moment, and no call may change them
+        owned = [x for x in (tlt, ctf, dose) if isinstance(x, (np.ndarray, list))]
+        if not owned:
+            return
+        tr2 = dict(tr)
+        for step in (1, 2):
+            if isinstance(tlt, np.ndarray):
+                tlt += 0.25 * step
+            elif isinstance(tlt, list):
+                tlt[:] = [x + 0.25 * step for x in tlt]
+            if isinstance(tlt, (np.ndarray, list)):
+                tr2["tilt_angle"] = np.array(tlt, dtype=float)
+            if isinstance(dose, np.ndarray):
+                dose *= 2.0
+            elif isinstance(dose, list):
+                dose[:] = [2.0 * x for x in dose]
+            if isinstance(dose, (np.ndarray, list)):
+                tr2["exposure"] = np.array(dose, dtype=float)
+            if isinstance(ctf, np.ndarray):
+                ctf[:, 4] += 0.125
+                tr2["defocus"] = ctf[:, 4].copy()
+            before = [np.array(x, dtype=float).copy() for x in owned]
+            ok, df = ctx.call("create_wedge_list_sg(step %d, arrays modified in place)" % (step + 1), wu.create_wedge_list_sg, tid, dim, c["pixel_size"], tlt, z_shift=z,
+                              ctf_file=ctf, ctf_file_type=case["ctf_kind"] if case["ctf_kind"] != "none" else "gctf", dose_file=dose, drop_nan_columns=si["drop"], **const_kw)
+            same = all(np.array_equal(np.array(x, dtype=float), b) for x, b in zip(owned, before))
+            ctx.check("caller_arrays_unchanged", same, None if same else {"what": "create_wedge_list_sg changed an array/list it was given", "step": step + 1})
+            if ok:
+                w = O.compare_frame(df, truth_columns(case, {tid: tr2}, [tid]), dropped_absent=si["drop"])
+                ctx.check("wedge_truth", w is None, dict(w, step=step + 1) if w else None)
         return
     out = os.path.join(base, "wl.star") if (case["write"] or cls == "wedge_em") else None
     kw = dict(tomo_dim=args["tomo_dim"], tomo_dim_file_format=args["tomo_dim_file_format"], z_shift=args["z_shift"], z_shift_file_format=args["z_shift_file_format"],
